@@ -1,6 +1,7 @@
 mod catalogue;
 mod catalogue_gen;
 mod common;
+mod conc;
 mod consumers;
 mod crash;
 mod creds;
@@ -30,6 +31,7 @@ fn dispatch_worker(wa: WorkerArgs) -> i32 {
         "catalogue" => worker_main(&catalogue::Catalogue, wa),
         "wire" => worker_main(&wire::Wire, wa),
         "creds" => worker_main(&creds::Creds, wa),
+        "conc" => worker_main(&conc::Conc, wa),
         "crash" => worker_main(&crash::Crash, wa),
         "journal-tamper" => worker_main(&journal::Tamper, wa),
         "journal-sched" => worker_main(&journal::Sched, wa),
@@ -52,6 +54,7 @@ fn dispatch_replay(check: &str, case: &Value, p: &Params) -> common::Outcome {
         "catalogue" => replay_case(&catalogue::Catalogue, case, p),
         "wire" => replay_case(&wire::Wire, case, p),
         "creds" => replay_case(&creds::Creds, case, p),
+        "conc" => replay_case(&conc::Conc, case, p),
         "crash" => replay_case(&crash::Crash, case, p),
         "journal-tamper" => replay_case(&journal::Tamper, case, p),
         "journal-sched" => replay_case(&journal::Sched, case, p),
